@@ -246,8 +246,14 @@ class Model(object):
         """Behaviour-preserving normal form relative to the reference tree:
         helpers that did not exist there are expanded inline (sa/inline.py),
         then renamed locals are mapped back (sa/alpha.py)."""
-        from . import inline
+        from . import inline, desugar
         self.inlined = inline.expand_new_helpers(self)
+        self.desugared = 0
+        if not os.environ.get("VERIF_NO_DESUGAR"):
+            for q, fi in self.funcs.items():
+                if any(isinstance(n, (ast.ListComp, ast.IfExp))
+                       for n in ast.walk(fi.node)):
+                    self.desugared += desugar.desugar_function(fi.node)
         for q, fi in self.funcs.items():
             self._alpha(q, fi.node)
 
